@@ -126,7 +126,7 @@ func runC11(c *core.Ctx, idx int) {
 		}
 	} else {
 		// strings that read like another kind of literal: they denote themselves, whatever the symbol they are compared with
-		strs = append(strs, "2023-01-01T00:00:00Z", "2020-01-02T03:04:05.123+05:45", "datetime(2020-01-02T03:04:05Z)", "true", "false", "null", "123", "-1", "1.5", "1e3", "[1]", `["a"]`, "anyOf(a)", "a and b", "not", "")
+		strs = append(strs, "2023-01-01T00:00:00Z", "2020-01-02T03:04:05.123+05:45", "datetime(2020-01-02T03:04:05Z)", "true", "false", "null", "123", "-1", "1.5", "1e3", "[1]", `["a"]`, "anyOf(a)", "a and b", "not", "", "Alice", "alice", "ALICE", " a", "a ", "AN", "an")
 		for i := 0; i < 150; i++ {
 			n := 5 + r.Intn(8)
 			var sb strings.Builder
@@ -422,6 +422,17 @@ func c11Bolt(c *core.Ctx, db *boltz.DbImpl, st *schema.St, s string, cands []str
 		if s != "" {
 			check("anyOf =", "anyOf(tags) = "+lit, func(_ int, cand string) bool { return cand == s })
 			check("anyOf in", "anyOf(tags) in ["+lit+"]", func(_ int, cand string) bool { return cand == s })
+		}
+		// the same filter with a literal that differs from s in letter case or outer blanks only, asked right after it of
+		// the same store: it denotes the variant, not s
+		for _, variant := range []string{strings.ToUpper(s), strings.ToLower(s), " " + s, s + " ", strings.TrimSpace(s)} {
+			if variant == s {
+				continue
+			}
+			variant := variant
+			vlit := ql.Lit(variant)
+			check("= (case / blank variant asked after the original)", "f = "+vlit, func(_ int, cand string) bool { return cand == variant })
+			check("in (case / blank variant asked after the original)", "f in ["+vlit+"]", func(_ int, cand string) bool { return cand == variant })
 		}
 		return nil
 	})
